@@ -15,7 +15,28 @@ COMMON_ASSUMPTIONS = [
 ]
 
 
+def run_apalache_ring(work):
+    """Unbounded argument for the ring (C13): inductive invariant of spec/CatRing.tla for every capacity 1..8, with Apalache."""
+    import subprocess, shutil
+    t0 = time.time()
+    d = os.path.join(work, "apalache")
+    os.makedirs(d, exist_ok=True)
+    shutil.copy(os.path.join(SPEC, "CatRing.tla"), d)
+    outs = []
+    for init, length in (("Init", 0), ("IndInit", 1)):
+        p = subprocess.run(["timeout", "900", "apalache-mc", "check", "--cinit=CInit", "--init=" + init, "--inv=IndInv", "--length=%d" % length,
+                            "--out-dir=" + os.path.join(d, "out"), "CatRing.tla"], cwd=d, stdout=subprocess.PIPE, stderr=subprocess.STDOUT, text=True)
+        outs.append(p.stdout)
+        if "The outcome is: NoError" not in p.stdout:
+            return {"name": "Apalache:CatRing", "ok": False, "rc": p.returncode, "generated": 0, "distinct": 0, "wall_s": round(time.time() - t0, 1),
+                    "exhaustive": False, "depth": length, "tail": p.stdout[-3000:], "evaluations": 0}
+    return {"name": "Apalache:CatRing(IndInv, capacities 1..8)", "ok": True, "rc": 0, "generated": 0, "distinct": 0, "wall_s": round(time.time() - t0, 1),
+            "exhaustive": True, "depth": 1, "tail": "", "evaluations": 2, "obligations": 2, "discharged": 2}
+
+
 def run_mc(mc, tier, work):
+    if mc.get("apalache"):
+        return run_apalache_ring(work)
     """Run one model-checking configuration. mc: {name, module, cfg, workers, heap, timeout, exhaustive}"""
     t0 = time.time()
     cfg = mc.get("cfg_thorough") if tier == "thorough" and mc.get("cfg_thorough") else mc["cfg"]
@@ -58,7 +79,7 @@ for _i in range(1, 21):
                                    "every recorded API call validated against CatImpl and judged by the CatMon monitors"}
 
 PROPS["C01"]["families"] = [GENERAL_S, fam("fam_prefix", 40, 800)]
-PROPS["C02"]["families"] = [GENERAL_S, fam("fam_prefix", 30, 500), fam("fam_lanes", 20, 200), fam("fam_casefold", 10, 200)]
+PROPS["C02"]["families"] = [GENERAL_S, fam("fam_prefix", 30, 500), fam("fam_lanes", 20, 200), fam("fam_casefold", 10, 200), fam("fam_lanes_wide", 6, 36)]
 PROPS["C04"]["families"] = [GENERAL_S, fam("fam_num", 60, 1500)]
 PROPS["C19"]["families"] = [GENERAL_S, fam("fam_desc", 60, 1500)]
 
@@ -71,7 +92,7 @@ def mc(name, quick=True, **kw):
 MC = {
     "C01": [mc("MC_Line")], "C02": [mc("MC_Line")], "C03": [mc("MC_Line"), mc("MC_Args")], "C04": [mc("MC_Args"), mc("MC_FnNum", module="MC_Fn", function_level=True)], "C05": [mc("MC_Args"), mc("MC_FnBuf", module="MC_Fn", function_level=True)],
     "C06": [mc("MC_Line")], "C07": [mc("MC_FnNum", module="MC_Fn", function_level=True), mc("MC_FnBuf", module="MC_Fn", function_level=True)], "C08": [mc("MC_Args"), mc("MC_FnBuf", module="MC_Fn", function_level=True)], "C09": [mc("MC_Flags")], "C10": [mc("MC_Codes")],
-    "C11": [mc("MC_Sched")], "C12": [mc("MC_Sched")], "C13": [mc("MC_Ring"), mc("MC_Sched")], "C14": [mc("MC_Hold")],
+    "C11": [mc("MC_Sched")], "C12": [mc("MC_Sched")], "C13": [mc("MC_Ring"), mc("MC_Sched"), {"name": "Apalache_CatRing", "apalache": True, "quick": True}], "C14": [mc("MC_Hold")],
     "C15": [mc("MC_Live"), mc("MC_Sched", quick=False)], "C16": [mc("MC_Mutex")], "C17": [mc("MC_Threads", module="CatThreads")], "C18": [mc("MC_Sched"), mc("MC_Hold")],
     "C19": [mc("MC_List")], "C20": [mc("MC_Hist")],
 }
@@ -126,8 +147,8 @@ PROPS["C13"]["families"] = [GENERAL_S, fam("fam_ring", 24, 400), fam("fam_quiesc
 PROPS["C14"]["families"] = [GENERAL_S, fam("fam_hold", 40, 800)]
 PROPS["C15"]["families"] = [GENERAL_S, fam("fam_quiesce", 40, 800), fam("fam_sched", 16, 200)]
 PROPS["C16"]["families"] = [fam("fam_mutex", 64, 1600), {"name": "fam_general_mutex", "gen": fam_general(lines=3, mutex=True), "quick": 30, "thorough": 600}]
-PROPS["C18"]["families"] = [GENERAL_S, fam("fam_sched", 32, 800), fam("fam_hold", 16, 300)]
-PROPS["C20"]["families"] = [GENERAL_S, fam("fam_hist", 80, 2000)]
+PROPS["C18"]["families"] = [GENERAL_S, fam("fam_sched", 32, 800), fam("fam_hold", 16, 300), fam("fam_cut", 40, 800)]
+PROPS["C20"]["families"] = [GENERAL_S, fam("fam_hist", 60, 1500), fam("fam_hist_twins", 160, 3000)]
 
 # direction 2: behaviours generated by TLC from the specification, replayed on the real code (lib/simreplay.py)
 import simreplay
